@@ -182,7 +182,7 @@ class DTWSettings:
     def set_max_dist(self, s1, s2):
         _, _, ival_fn = innerdistance.inner_dist_fns(self.inner_dist, use_ndim=self.use_ndim)
         if self.use_pruning:
-            self.adj_max_dist = ival_fn(ub_euclidean(s1, s2, inner_dist=self.inner_dist))
+            self.adj_max_dist = ival_fn(ed.distance(s1, s2, inner_dist=self.inner_dist, use_ndim=self.use_ndim))
 
     def kwargs(self):
         return {
